@@ -658,6 +658,13 @@ func (c *Ctx) simulate(t *esTemplate, seq []*atom, s0 dstate, v *esVerdicts, whe
 			if nv == nil {
 				nv = linConst(1)
 			}
+			// GenerateBegin of a slice known to be empty on this path emits nothing (its own `size == 0` exit)
+			if strings.HasPrefix(a.callee, "GenerateBegin(") && strings.HasSuffix(a.callee, ")") && t.state != nil {
+				arg := strings.TrimSuffix(strings.TrimPrefix(a.callee, "GenerateBegin("), ")")
+				if t.state.decided["len("+arg+")==0"] {
+					nv = linConst(0)
+				}
+			}
 			top.depth = top.depth.add(nv)
 		case "Rep":
 			var net *lin
@@ -783,10 +790,6 @@ func (c *Ctx) simulate(t *esTemplate, seq []*atom, s0 dstate, v *esVerdicts, whe
 				if okd {
 					d := top.depth
 					one = d.isConst() && d.c == 1
-					if !one && t.fn == "FuncBuilder" {
-						// declared result count pushes for an empty body: tolerated shape S + k results
-						one = d.sub(linConst(1)).isConst() || len(d.terms) == 1
-					}
 				}
 				v.add(c, okd && one, "ES-D", t.fn, "function returns one value", a,
 					"at Return exactly one value is above the caller's operands",
